@@ -251,9 +251,7 @@ def eager_integrate_gaussian_gaussian(log_measure, integrand, reduced_vars):
             )
             data = (-0.5) * norm * (vmv_term + trace_term)
 
-            inputs = OrderedDict(
-                (k, d) for k, d in inputs.items() if k not in reduced_names
-            )
+            inputs = OrderedDict((k, d) for k, d in inputs.items() if k not in real_vars)
             result = Tensor(data, inputs)
             return result.reduce(ops.add, reduced_names - real_vars)
 
